@@ -132,6 +132,22 @@ def check(ctx, pcirc, mons, sweep, exc, replay, lossless=False):
                     ctx.violation("C10:readout-remembers", f"monitor M{c}_{p} at sweep point {k} for the later excitation {sorted(exc2)} on the same solved model: "
                                   f"reported in/out {gi:.6f}/{go:.6f}, network solution {ai:.6f}/{bo:.6f}", replay)
                     return False
+    # a solved model is a snapshot: the same solver solved again at other values (and with another sweep length) must not change
+    # what the *earlier* result reports
+    try:
+        shifted = [float(x) + 0.37 for x in sweep]
+        sol.solve(pa=np.array(shifted + [0.11]) if ns > 1 else shifted[0])
+        tab_again = mod.get_monitor(dict(exc), power=False)
+    except Exception as e:  # noqa
+        if impl.outcome_class(e) == "singular":
+            return True
+        ctx.violation(f"C10:raised-{type(e).__name__}", f"reading an earlier result after a later solve raised {type(e).__name__}: {str(e)[:60]}", replay)
+        return False
+    for col in tab_a.columns:
+        x, y = np.asarray(tab_a[col], complex), np.asarray(tab_again[col], complex) if col in tab_again.columns else None
+        if y is None or x.shape != y.shape or (x.size and float(np.max(np.abs(x - y))) > 1e-12):
+            ctx.violation("C10:earlier-result-changed", f"column {col} of the monitor table of an earlier result changed after the solver was solved again at other values", replay)
+            return False
     return True
 
 
